@@ -1,6 +1,10 @@
 package world
 
-import "fmt"
+import (
+	"fmt"
+
+	"github.com/go-kid/ioc/container/processors"
+)
 
 // A component that takes its points from a package-private mix-in embedded by value (the mix-in's type
 // name is unexported, its exported fields are promoted and settable).
@@ -29,5 +33,32 @@ func (h *MixinHolder) Init() error {
 	h.Inits++
 	h.SeenAtInit = fmt.Sprintf("dep-set=%v dep-initialised=%v cfg=%q opt-nil=%v", h.Dep != nil, depInit, h.Cfg, h.Opt == nil)
 	h.run.Log.Add("init", "mixin-holder")
+	return nil
+}
+
+// InitPP is a user post-processor that is itself a component with points and an Init of its own: like any
+// component it is populated (and what it depends on initialised) before its Init.
+type InitPP struct {
+	processors.DefaultComponentPostProcessor
+	Dep        IA     `wire:"mix-dep"`
+	Cfg        string `value:"${mix.key}"`
+	Ord        int
+	run        *Run
+	SeenAtInit string
+	Inits      int
+}
+
+func (h *InitPP) Naming() string { return "init-pp" }
+func (h *InitPP) Order() int     { return h.Ord }
+func (h *InitPP) Bind(r *Run)    { h.run = r }
+func (h *InitPP) Init() error {
+	depInit := false
+	for _, e := range h.run.Log.Events() {
+		if e.Kind == "init" && e.Who == "mix-dep" {
+			depInit = true
+		}
+	}
+	h.Inits++
+	h.SeenAtInit = fmt.Sprintf("dep-set=%v dep-initialised=%v cfg=%q", h.Dep != nil, depInit, h.Cfg)
 	return nil
 }
